@@ -368,7 +368,11 @@ func gen(t *rapid.T) Case {
 			}
 		case k == "hard":
 			links++
-			c.Ops = append(c.Ops, hist.Op{K: "hard", Path: fmt.Sprintf("/link%d", links), Target: o.path})
+			tgt := o.path
+			if rapid.IntRange(0, 11).Draw(t, "toRoot") == 0 {
+				tgt = "/" // the root group itself: refused, and nothing else may change
+			}
+			c.Ops = append(c.Ops, hist.Op{K: "hard", Path: fmt.Sprintf("/link%d", links), Target: tgt})
 		case k == "attr":
 			a := &hist.AttrVal{Kind: rapid.SampledFrom([]string{"i32", "f64", "str", "str", "[]f64", "u8", "i64", "[]i32"}).Draw(t, "akind"), Seed: rapid.IntRange(0, 9999).Draw(t, "aseed")}
 			if a.Kind == "str" {
